@@ -207,6 +207,9 @@ func (tbls *TBLS) KeyGen(ctx context.Context) ([]byte, error) {
 	// We then distribute the polynomial evaluations (shares) to all parties.
 	// Each party 'i' gets P(i).
 	tbls.shareDistribution(ctx, shares)
+	if err := tbls.abortIfTimedOut(ctx, "share distribution"); err != nil {
+		return nil, err
+	}
 
 	// Having received all shares, we combine all shares received from all parties by adding them.
 	// Now, the private key of each party 'i' is defined to be:
@@ -218,9 +221,15 @@ func (tbls *TBLS) KeyGen(ctx context.Context) ([]byte, error) {
 	// Instead, we commit to it and send our commitment to everyone,
 	// and wait for commitments from everyone else.
 	tbls.commitPhase(ctx, pk)
+	if err := tbls.abortIfTimedOut(ctx, "commitment distribution"); err != nil {
+		return nil, err
+	}
 
 	// Now we de-commit, and wait for everyone else to de-commit thus revealing their public key.
 	tbls.revealPhase(ctx, pk)
+	if err := tbls.abortIfTimedOut(ctx, "public key distribution"); err != nil {
+		return nil, err
+	}
 	// Next, we ensure the commitments we received match the de-commitments
 	if err := tbls.validateCommitments(); err != nil {
 		return nil, err
@@ -320,6 +329,15 @@ func (tbls *TBLS) validateCommitments() error {
 			tbls.Party, party, base64.StdEncoding.EncodeToString(pk), base64.StdEncoding.EncodeToString(commitment))
 	}
 
+	return nil
+}
+
+// abortIfTimedOut returns an error if the context expired: the wait that precedes it returns either because the
+// phase completed or because the context expired, and in the latter case the data of the phase is incomplete.
+func (tbls *TBLS) abortIfTimedOut(ctx context.Context, phase string) error {
+	if tbls.contextTimedOut(ctx) {
+		return fmt.Errorf("%s did not complete: %w", phase, ctx.Err())
+	}
 	return nil
 }
 
